@@ -4,7 +4,7 @@ CONSTANTS Parent <- TCoreParent  Area <- TCoreArea  Height <- TCoreHeight  Sym <
 CONSTANTS Targets <- TCoreTargetsG1  Vals <- ValsG  Facs <- None  Masses <- MassesG  Maps <- None  FracMaps <- None  AddMaps <- AddMapsG  SetMaps <- None
 CONSTANTS AdjSets <- AdjSetsG  EnrFracs <- None  AdjMFs <- None
 CONSTANTS HDom <- HDom123  HTargets <- TCoreH7  HVals <- HVals2
-CONSTANTS LeafVolCut <- LeafVolCutEnv  ScaleRaises <- ScaleRaisesEnv
+CONSTANTS WithLump <- No  LeafVolCut <- LeafVolCutEnv  ScaleRaises <- ScaleRaisesEnv
 INIT InitB
 NEXT NextB
 CONSTRAINT Bound
